@@ -203,6 +203,23 @@ def run_case(case, rec, mon=None):
                                 U.read_signal(g, force_as="sph")
                         except Exception:
                             pass
+                # the same samples encoded again with a command code outside the format (9, 10, 12 ...) among valid commands
+                for where, code, payload in (("start", 9, b"RIFF"), ("mid", 9, b""), ("end", 9, b"\x00\x01"), ("mid", 10, None), ("end", 12, None), ("start", 15, None)):
+                    rng2 = rng_for(case["seed"], "C13", case["idx"], 3)
+                    try:
+                        bad, _ = M.encode(chans, rng2, version=info["version"], ftype=ftype, blocksize=info["blocksize"], maxnlpc=info["maxnlpc"], nmean=info["nmean"],
+                                          inject=(where, code, list(payload) if payload is not None else None))
+                    except Exception:
+                        continue
+                    g = io.BytesIO(hdr + bad)
+                    mon.register(g, raises=IOError, info=dict(malformed="command:%d %s" % (code, where), **{k: info[k] for k in ("kind", "version", "nchan", "N")}))
+                    rec.count("streams_with_a_foreign_command_among_valid_ones")
+                    try:
+                        with warnings.catch_warnings():
+                            warnings.simplefilter("ignore")
+                            U.read_signal(g, force_as="sph")
+                    except Exception:
+                        pass
                 for ver in (0, 3, 7, 255):
                     g = io.BytesIO(hdr + b"ajkg" + bytes([ver]) + stream[5:])
                     mon.register(g, raises=IOError, info=dict(malformed="version:%d" % ver, **{k: info[k] for k in ("kind", "nchan", "N")}))
